@@ -397,6 +397,41 @@ impl Drop for MemStream {
 }
 
 // ---------------------------------------------------------------------------------------------
+// the REAL checks, for the completeness oracle
+
+/// Does the relay's real decoder (`ClientToRelayMsg::from_bytes`) accept `frame` as a datagram
+/// frame?  Returns (destination key, ecn code, segment size, contents).
+pub fn real_decode_datagram(frame: &[u8]) -> Option<([u8; 32], u8, u16, Vec<u8>)> {
+    use iroh_relay::protos::relay::{ClientToRelayMsg, verif_hooks as hooks};
+    match hooks::client_to_relay_from_bytes(Bytes::copy_from_slice(frame), &KeyCache::new(0)) {
+        Ok(ClientToRelayMsg::Datagrams { dst_endpoint_id, datagrams }) => Some((
+            *dst_endpoint_id.as_bytes(),
+            datagrams.ecn.map_or(0, |e| e as u8),
+            datagrams.segment_size.map_or(0, u16::from),
+            datagrams.contents.to_vec(),
+        )),
+        _ => None,
+    }
+}
+
+/// Is the frame the relay would build for this datagram accepted by the REAL forwarder check
+/// (`ensure_sendable`, reached through `RelayedStream`'s `Sink::start_send`)?
+pub fn real_forwardable(src: usize, ecn: u8, seg: u16, contents: &[u8]) -> bool {
+    use iroh_relay::protos::relay::{Datagrams, RelayToClientMsg};
+    let msg = RelayToClientMsg::Datagrams {
+        remote_endpoint_id: key(src),
+        datagrams: Datagrams {
+            ecn: noq_proto::EcnCodepoint::from_bits(ecn).filter(|_| ecn & 3 != 0),
+            segment_size: std::num::NonZeroU16::new(seg),
+            contents: Bytes::copy_from_slice(contents),
+        },
+    };
+    let sink = MemStream { sh: Arc::new(Mutex::new(Shared::default())), activity: Arc::new(AtomicU64::new(0)) };
+    let mut rs = RelayedStream::new(sink, KeyCache::new(0));
+    Pin::new(&mut rs).start_send(msg).is_ok()
+}
+
+// ---------------------------------------------------------------------------------------------
 // trace
 
 /// Registry snapshot in connection indices: id -> (active, inactive oldest first); src -> dsts.
